@@ -89,3 +89,13 @@ CASES += [
          edits=[(A, "   mpArgV( other.mpArgV)\n{\n\n   other.mpArgV = nullptr;", "   mpArgV( std::exchange( other.mpArgV, nullptr))\n{\n"),
                 (A, "#include \"celma/appl/arg_string_2_array.hpp\"", "#include \"celma/appl/arg_string_2_array.hpp\"\n#include <utility>")]),
 ]
+
+A2A = 'src/library/appl/arg_string_2_array.cpp'
+CASES += [
+    dict(id='c04-argv-word-allocated-by-strlen', prop='C04', file=A2A, expect='R3',
+         old="      argv[ argc] = new char[ next_arg.length() + 1];\n      ::strcpy( argv[ argc], next_arg.c_str());",
+         new="      argv[ argc] = new char[ ::strlen( next_arg.c_str()) + 1];\n      next_arg.copy( argv[ argc], next_arg.length());\n      argv[ argc][ next_arg.length()] = '\\0';"),
+    dict(id='c04-eq-argv-word-by-string-copy', prop='C04', file=A2A, expect=None,
+         old="      argv[ argc] = new char[ next_arg.length() + 1];\n      ::strcpy( argv[ argc], next_arg.c_str());",
+         new="      argv[ argc] = new char[ next_arg.length() + 1];\n      next_arg.copy( argv[ argc], next_arg.length());\n      argv[ argc][ next_arg.length()] = '\\0';"),
+]
